@@ -916,14 +916,16 @@ func (s *Stream) parseFunctionArgs(funcExpr string, data map[string]any) ([]any,
 		} else if val, err := strconv.ParseFloat(arg, 64); err == nil {
 			// Numeric literal
 			args[i] = val
-		} else if containsExpressionOperator(arg) {
+		} else if containsExpressionOperator(arg) || hasUnquotedBlank(arg) {
 			// Argument is an arithmetic/logical expression (e.g. v/3, a+b, x>5)
 			// that the field/literal lookups above cannot resolve. Evaluate it
 			// against the row so functions like round(v/total, 2) return a value
 			// instead of silently nil-ing (the raw string failing ToFloat64).
 			// Args containing '(' are already handled as nested functions above,
 			// so this branch only sees operator-only expressions — no recursion.
-			if result, err := functions.GetExprBridge().EvaluateExpression(arg, data); err == nil {
+			// Keyword expressions without operator characters (CASE WHEN b THEN 1
+			// ELSE 2 END, s IS NULL) are recognised by their blanks.
+			if result, err := evaluateWithFallback(arg, nil, data); err == nil {
 				args[i] = result
 			} else {
 				args[i] = arg
